@@ -76,6 +76,21 @@ pub fn model_encrypt(key: u8, buffer: &mut [u8], plaintext_length: usize, aad: &
     Ok(EncryptResult { nonce_length: NONCE_LEN, ciphertext_length: ct_len })
 }
 
+/// Record (aad, nonce, ct) as "really encrypted under `key`" without running an encryption.
+pub fn model_log(key: u8, aad: &[u8], nonce: &[u8; NONCE_LEN], ct: &[u8]) {
+    unsafe {
+        let e = if key & 1 == 0 { &mut LOG[0] } else { &mut LOG[1] };
+        *e = EMPTY_ENTRY;
+        e.valid = true;
+        e.key = key;
+        e.aad_len = aad.len();
+        e.aad[..aad.len()].copy_from_slice(aad);
+        e.nonce = *nonce;
+        e.ct_len = ct.len();
+        e.ct[..ct.len()].copy_from_slice(ct);
+    }
+}
+
 pub fn model_decrypt(key: u8, nonce: &[u8], ct: &[u8], aad: &[u8]) -> Result<Vec<u8>, DecryptError> {
     unsafe {
         DEC_CALLS += 1;
@@ -132,7 +147,8 @@ pub fn symbolic_model_randomness() {
 ///     = behaviour with an accepting cipher, if the recorded call is the logged triple.
 /// (Running the accepting path symbolically costs > 15 min per decode here: the decrypted
 /// plaintext lives on the heap, where CBMC loses all constants.)
-pub static mut PROBE: [LogEntry; 2] = [EMPTY_ENTRY; 2];
+pub static mut PROBE0: LogEntry = EMPTY_ENTRY;
+pub static mut PROBE1: LogEntry = EMPTY_ENTRY;
 pub static mut PROBE_CALLS: usize = 0;
 pub static mut PROBE_OVERFLOW: bool = false;
 pub struct ProbeCipher;
@@ -148,7 +164,8 @@ impl Cipher for ProbeCipher {
             if k >= 2 || aad.len() > MAX_AAD || ct.len() > MAX_CT {
                 PROBE_OVERFLOW = true;
             } else {
-                let e = &mut PROBE[k];
+                // two separate records (no symbolically indexed write into an array of records)
+                let e = if k == 0 { &mut PROBE0 } else { &mut PROBE1 };
                 e.valid = nonce.len() == NONCE_LEN;
                 if e.valid {
                     e.nonce.copy_from_slice(nonce);
@@ -167,7 +184,8 @@ impl Cipher for ProbeCipher {
 }
 pub fn probe_reset() {
     unsafe {
-        PROBE = [EMPTY_ENTRY; 2];
+        PROBE0 = EMPTY_ENTRY;
+        PROBE1 = EMPTY_ENTRY;
         PROBE_CALLS = 0;
         PROBE_OVERFLOW = false;
     }
@@ -175,8 +193,8 @@ pub fn probe_reset() {
 /// Would the ideal AEAD (ghost log entry of `key`) accept recorded call `k`?
 pub fn probe_call_is_logged(k: usize, key: u8) -> bool {
     unsafe {
-        let p = &PROBE[k];
-        let e = &LOG[(key & 1) as usize];
+        let p = if k == 0 { &PROBE0 } else { &PROBE1 };
+        let e = if key & 1 == 0 { &LOG[0] } else { &LOG[1] };
         // both buffers are zero beyond their length, so equal lengths + equal arrays = equal data
         e.valid && p.valid && p.nonce == e.nonce && p.aad_len == e.aad_len && p.ct_len == e.ct_len && p.aad == e.aad && p.ct == e.ct
     }
